@@ -3,6 +3,9 @@
 //! and no timeout blocking support
 
 use std::cell::UnsafeCell;
+#[cfg(may_verif)]
+use crate::verif::atomic::{AtomicBool, Ordering};
+#[cfg(not(may_verif))]
 use std::sync::atomic::{AtomicBool, Ordering};
 use std::sync::Arc;
 
